@@ -26,6 +26,12 @@ def lpIntMin (v : Int) : LPEntry :=
   else if inSigned 32 v then .i32 v
   else .i64 v
 
+/-- the integer a listpack integer entry stores -/
+def LPEntry.int? : LPEntry → Option Int
+  | .u7 v => some (v : Int)
+  | .i13 v => some v | .i16 v => some v | .i24 v => some v | .i32 v => some v | .i64 v => some v
+  | _ => none
+
 /-- one stream entry inside a node; ids are deltas to the node's master id,
     stored with a chosen integer encoding -/
 structure SEntryE where
@@ -148,6 +154,30 @@ def StreamE.ser (s : StreamE) : Bytes :=
       saveLen s.entriesAdded else []) ++
     saveLen s.groups.length ++ s.groups.flatMap (SGroupE.enc s.ver) ++
     (if s.ver ≥ 4 then s.idmp.enc else [])
+
+/-- the field/value list of an entry (SAMEFIELDS resolved against the master fields) -/
+def SEntryE.fieldVals (e : SEntryE) (masterFields : List LPEntry) : List Bytes :=
+  if e.same then
+    (List.zip masterFields e.items).flatMap (fun p => [p.1.val, p.2.val])
+  else e.items.map LPEntry.val
+
+/-- "ms-seq" -/
+def streamId (ms seq : Nat) : Bytes := natToDec ms ++ [45] ++ natToDec seq
+
+/-- the id of an entry: master id plus the stored deltas -/
+def SEntryE.id (e : SEntryE) (mMs mSeq : Nat) : Bytes :=
+  streamId (((mMs : Int) + (e.msDelta.int?.getD 0)).toNat) (((mSeq : Int) + (e.seqDelta.int?.getD 0)).toNat)
+
+/-- the live (not deleted) entries of a node: id and field/value list, in order -/
+def SNodeE.live (n : SNodeE) : List (Bytes × List Bytes) :=
+  (n.entries.filter (fun e => !e.deleted)).map (fun e => (e.id n.masterMs n.masterSeq, e.fieldVals n.masterFields))
+
+/-- what an entry needs beyond `SNodeE.wf` for its id to be a stream id: integer
+    deltas, master + delta within 0 … 2^64-1 -/
+def SEntryE.idWf (e : SEntryE) (mMs mSeq : Nat) : Prop :=
+  ∃ dms dseq, e.msDelta.int? = some dms ∧ e.seqDelta.int? = some dseq ∧
+    0 ≤ (mMs : Int) + dms ∧ (mMs : Int) + dms < (2 ^ 64 : Nat) ∧
+    0 ≤ (mSeq : Int) + dseq ∧ (mSeq : Int) + dseq < (2 ^ 64 : Nat)
 
 def SNodeE.wf (n : SNodeE) : Prop :=
   n.w.wf ∧ n.w.val = n.blob ∧ lpWf n.lpEntries ∧ n.masterMs < 2 ^ 64 ∧ n.masterSeq < 2 ^ 64 ∧
